@@ -1,3 +1,4 @@
+import FpgoVerif.Model.C06
 /-! Executable model for property C08 (core-only): ConcurrentQueue / ConcurrentStack.
 
     Mechanism mirrored (queue.go, `ConcurrentQueue.{Put,Take,Offer,Poll}`, `ConcurrentStack.{Push,Pop}`):
@@ -247,17 +248,45 @@ def splitOps (body : String) : List String :=
   ((body.splitOn ";").map (fun t => t.trimAscii.toString)).filter (· ≠ "")
 
 /-- one complete call by thread 0 through the wrapper: inv, acq, read, commit, rel -/
-def callSeq {σ Op : Type} (sys : Sys σ Op Ret) (s : State σ Op Ret) (op : Op) : State σ Op Ret × String :=
+def callSeq {σ Op ρ : Type} (sys : Sys σ Op ρ) (showR : ρ → String) (s : State σ Op ρ) (op : Op) : State σ Op ρ × String :=
   match run sys s [.inv 0 op, .acq 0, .read 0, .commit 0, .rel 0] with
-  | some s' => (s', match s'.done.getLast? with | some d => showRet d.ret | none => "bad")
+  | some s' => (s', match s'.done.getLast? with | some d => showR d.ret | none => "bad")
   | none => (s, "stuck")
 
-def seqCase {σ Op : Type} (sys : Sys σ Op Ret) (parse : String → Option Op) (body : String) : String :=
-  let (_, outs) := (splitOps body).foldl (fun (acc : State σ Op Ret × List String) tok =>
+def seqCase {σ Op ρ : Type} (sys : Sys σ Op ρ) (showR : ρ → String) (parse : String → Option Op) (body : String) : String :=
+  let (_, outs) := (splitOps body).foldl (fun (acc : State σ Op ρ × List String) tok =>
     match parse tok with
-    | some op => let (s, o) := callSeq sys acc.1 op; (s, o :: acc.2)
+    | some op => let (s, o) := callSeq sys showR acc.1 op; (s, o :: acc.2)
     | none => (acc.1, "bad-op" :: acc.2)) (initState sys, [])
   " | ".intercalate outs.reverse
+
+/-! ### the wrappers over the POINTER-LEVEL LinkedListQueue of C06 (σ := `C06.Q`, apply := `C06.step`) -/
+
+/-- the wrapper's methods are LinkedListQueue's: Put = Offer (append), Take = Poll = Shift (remove head) -/
+def llqOpQ : QOp → C06.Op
+  | .put v => .offer v
+  | .offer v => .offer v
+  | .take => .shift
+  | .poll => .shift
+
+/-- Push = Offer (append), Pop (remove tail) -/
+def llqOpS : SOp → C06.Op
+  | .push v => .offer v
+  | .pop => .pop
+
+/-- ConcurrentQueue over the pointer-level LinkedListQueue (`pick` = arbitrary behaviour of sync.Pool.Get) -/
+def llqQueueSys (pick : Nat → Nat) : Sys C06.Q QOp C06.Obs :=
+  ⟨C06.initWith pick, fun q op => C06.step q (llqOpQ op), fun _ => .excl⟩
+
+/-- ConcurrentStack over the pointer-level LinkedListQueue -/
+def llqStackSys (pick : Nat → Nat) : Sys C06.Q SOp C06.Obs :=
+  ⟨C06.initWith pick, fun q op => C06.step q (llqOpS op), fun _ => .excl⟩
+
+def showObs : C06.Obs → String
+  | .nil => "nil" | .ok v => s!"ok {v}" | .empty => "empty" | .panic => "panic" | .hang => "hang" | _ => "bad"
+
+/-- `llq` / `cc-llq`: the wrapped object is LinkedListQueue itself -/
+def isLLQ (impl : String) : Bool := impl == "llq" || impl == "cc-llq"
 
 /-- the Spec for sequential cases: the ideal deque itself, no lock, no threads -/
 def specSeqCase {Op : Type} (apply : List Int → Op → List Int × Ret) (parse : String → Option Op) (body : String) : String :=
@@ -462,8 +491,11 @@ def handle (line : String) : String :=
   let (head, body) := splitHead line
   let toks := (head.splitOn " ").filter (· ≠ "")
   match toks with
-  | "seq" :: "q" :: impl :: _ => seqCase (sysQ impl) parseQOp body
-  | "seq" :: "s" :: impl :: _ => seqCase (sysS impl) parseSOp body
+  -- sequential cases over LinkedListQueue are executed on the pointer-level heap of C06 under the lock protocol
+  | "seq" :: "q" :: impl :: _ =>
+    if isLLQ impl then seqCase (llqQueueSys (fun _ => 0)) showObs parseQOp body else seqCase (sysQ impl) showRet parseQOp body
+  | "seq" :: "s" :: impl :: _ =>
+    if isLLQ impl then seqCase (llqStackSys (fun _ => 0)) showObs parseSOp body else seqCase (sysS impl) showRet parseSOp body
   | "stress" :: kind :: impl :: _ => stressCase kind impl toks
   | "hist" :: kind :: impl :: _ => histCase kind impl toks
   | "fresh" :: kind :: impl :: _ => freshCase kind impl toks
